@@ -4,12 +4,39 @@ import invgen as G
 from common import *  # noqa
 
 
+def symlink_inv(rng):
+    """One class file (or a whole class directory) reachable under two class names through a
+    symlink, with relative includes: the same file is a different class under each name."""
+    inv = G.Inv()
+    common = G.doc(['.settings'] + (['..shared'] if rng.random() < 0.5 else []), ['capp'], ('m', [(S('trace'), L(S('common')))]))
+    inv.classes[('shared.yml',)] = G.doc([], [], ('m', [(S('trace'), L(S('shared')))]))
+    inv.classes[('team1', 'common.yml')] = common
+    inv.classes[('team1', 'settings.yml')] = G.doc([], ['one'], ('m', [(S('team'), S('one')), (S('quota'), I(10)), (S('trace'), L(S('team1.settings')))]))
+    inv.classes[('team2', 'settings.yml')] = G.doc([], ['two'], ('m', [(S('team'), S('two')), (S('quota'), I(20)), (S('trace'), L(S('team2.settings')))]))
+    inv.classes[('team2', 'common.yml')] = ('linkfile', '../team1/common.yml', common)
+    if rng.random() < 0.5:
+        # a symlinked directory: team3 -> team1
+        inv.classes[('team3',)] = ('link', 'team1')
+        inv.classes[('team3', 'common.yml')] = ('virt', common)
+        inv.classes[('team3', 'settings.yml')] = ('virt', inv.classes[('team1', 'settings.yml')])
+    picks = [['team1.common'], ['team2.common'], ['team2.common', 'team1.common'], ['team1.common', 'team2.common']]
+    if ('team3',) in inv.classes:
+        picks += [['team3.common'], ['team3.common', 'team2.common']]
+    rng.shuffle(picks)
+    for j, cl in enumerate(picks[:rng.randint(2, len(picks))]):
+        inv.nodes[('n%d.yml' % j,)] = G.doc(cl, [], ('m', [(S('node'), S('${team}-${quota}')), (S('trace'), L(S('NODE')))]))
+    return inv, set()
+
+
 def run(tier, rng, C):
     n = 30 if tier == 'quick' else 600
     threads = [1, 2, 3, 4, 8, 16]
     base_cases, lines_all, lines_nodes = [], [], []
     for i in range(n):
-        inv, failing = P13.multi_node_inv(rng, fail=0.0 if i % 4 else 0.2)
+        if i % 5 == 4:
+            inv, failing = symlink_inv(rng)
+        else:
+            inv, failing = P13.multi_node_inv(rng, fail=0.0 if i % 4 else 0.2)
         cid = C.case_id('t', i)
         base_cases.append({'id': cid, 'line': G.inv_line(cid, inv, 'all'), 'show': G.show_inv(inv, 'all'), 'nontrivial': True,
                            'inv': inv, 'failing': failing})
@@ -61,11 +88,42 @@ def run(tier, rng, C):
             fails.append({'key': 'node-differs-from-inventory-entry', 'severity': 'fail', 'show': c['show'], 'lines': [c['line']],
                           'reason': 'render_node(%s) differs from the node\'s entry in the full inventory' % nm,
                           'impl': C.describe(o)[:300], 'model': entry[:300], 'size': len(c['line'])})
+    # sequences of render calls on ONE instance (nodes in shuffled order, repeated, the whole
+    # inventory in between): every call returns what a fresh instance returns for that node
+    seq_lines, seq_want = [], {}
+    for c in base_cases:
+        if c['failing']:
+            continue
+        ref = runs[(1, 0)].get(c['id'], '')
+        if obs_kind(ref) != 'ok':
+            continue
+        entries = ref[3:].split(' | ')[1:]
+        names = sorted(('.'.join(p)[:-4] if c['inv'].compose else p[-1][:-4]) for p in c['inv'].nodes)
+        for rep in range(2):
+            order = names + names
+            rng.shuffle(order)
+            order.insert(rng.randint(1, len(order)), '*')
+            cid = '%s_q%d' % (c['id'], rep)
+            seq_lines.append(G.inv_line(cid, c['inv'], 'seq ' + G.strs(order)))
+            seq_want[cid] = (c, order, ['inv-ok' if nm == '*' else 'ok ' + entries[names.index(nm)] for nm in order])
+    out = C.run_sharded(C.HARNESS, seq_lines)
+    evals += len(seq_lines)
+    for cid, (c, order, exp) in seq_want.items():
+        o = out.get(cid, '')
+        got = o[4:].split(' ;; ') if o.startswith('seq ') else [o]
+        if got != exp:
+            j = next((k for k in range(min(len(got), len(exp))) if got[k] != exp[k]), 0)
+            fails.append({'key': 'render-depends-on-earlier-calls', 'severity': 'fail', 'show': c['show'] + ' calls: ' + ' '.join(order),
+                          'lines': [seq_lines[list(seq_want).index(cid)]],
+                          'reason': 'call %d (%s) of the sequence %s on one instance differs from the render of that node on a fresh instance'
+                                    % (j, order[j] if j < len(order) else '?', order),
+                          'impl': C.describe(got[j] if j < len(got) else o)[:300], 'model': C.describe(exp[j])[:300] if j < len(exp) else '',
+                          'size': len(c['line'])})
     res['failures'] = fails
     res['evaluations'] = evals
     res['rule'] = ('%d multi-node inventories: whole-inventory render in fresh processes with RAYON_NUM_THREADS in %s, %d times each, '
                    'compared with each other and with the model\'s single render; every node rendered alone twice in shuffled order '
-                   'and compared with its inventory entry; non-trivial = >= 2 nodes and >= 2 pool sizes (all)'
+                   'and compared with its inventory entry; two shuffled sequences of render calls (with a whole-inventory render in between) on one instance compared call by call with fresh-instance renders; one inventory in five has a class file and a class directory reachable under two names through symlinks, with relative includes; non-trivial = >= 2 nodes and >= 2 pool sizes (all)'
                    % (n, threads, 2 if tier == 'quick' else 4))
     res['extra']['static_audit'] = static_audit()
     return res
